@@ -550,12 +550,29 @@ mod exec {
         }
     }
 
+    // Like WriteAdapter, the read adapters must close their stream before
+    // Popen::drop() waits for the process.  Otherwise a child that still has
+    // output to write blocks on the pipe that no one will read again, and
+    // dropping the adapter hangs.
+
+    impl Drop for ReadOutAdapter {
+        fn drop(&mut self) {
+            self.0.stdout.take();
+        }
+    }
+
     #[derive(Debug)]
     struct ReadErrAdapter(Popen);
 
     impl Read for ReadErrAdapter {
         fn read(&mut self, buf: &mut [u8]) -> io::Result<usize> {
             self.0.stderr.as_mut().unwrap().read(buf)
+        }
+    }
+
+    impl Drop for ReadErrAdapter {
+        fn drop(&mut self) {
+            self.0.stderr.take();
         }
     }
 
@@ -1127,6 +1144,17 @@ mod pipeline {
         fn read(&mut self, buf: &mut [u8]) -> io::Result<usize> {
             let last = self.0.last_mut().unwrap();
             last.stdout.as_mut().unwrap().read(buf)
+        }
+    }
+
+    impl Drop for ReadPipelineAdapter {
+        // The commands are waited for in order when the vector is dropped, so
+        // the output of the last command must be closed before that: while
+        // it is open a command still producing output keeps every earlier
+        // command of the pipeline blocked as well.
+        fn drop(&mut self) {
+            let last = self.0.last_mut().unwrap();
+            last.stdout.take();
         }
     }
 
